@@ -216,7 +216,7 @@ def find(pid, f, repo, scratch):
             continue
         got = gs[0]
         if case.get('also3'):
-            bad = len(gs) == 3 and case['bad'](gs[0], gs[1], gs[2])
+            bad = len(gs) == 1 + len(case['also3']) and case['bad'](*gs)
         elif case.get('also'):
             bad = len(gs) == 2 and case['bad'](gs[0], gs[1])
         else:
@@ -639,6 +639,153 @@ def family_grammar_structure():
         yield dict(op='compile', input=c['input'], expect='reads as Scheme; names bound once and before use; frame tags = table keys', bad=bad)
 
 
+def reference_tree(words):
+    """reference reading of a word sequence by the find grammar (the property statement of C01/C09: `!` binds tighter than AND
+    (juxtaposition, -a, -and), AND tighter than OR (-o, -or), OR tighter than `,`; binary operators associate to the left;
+    parentheses group without leaving a node). Returns the tree in `{:?}` notation without blanks, or None when the sequence is
+    not a sentence."""
+    prim = {'-true': 'Test(True)', '-false': 'Test(False)', '-print': 'Action(Print)', '-quit': 'Action(Quit)', '-empty': 'Test(Empty)'}
+    pos = [0]
+
+    class Bad(Exception):
+        pass
+
+    def peek():
+        return words[pos[0]] if pos[0] < len(words) else None
+
+    def eat():
+        pos[0] += 1
+        return words[pos[0] - 1]
+
+    def unary():
+        w = peek()
+        if w == '!':
+            eat()
+            return 'Not(%s)' % unary()
+        if w == '(':
+            eat()
+            t = lst()
+            if peek() != ')':
+                raise Bad()
+            eat()
+            return t
+        if w in prim:
+            return prim[eat()]
+        raise Bad()
+
+    def conj():
+        t = unary()
+        while True:
+            w = peek()
+            if w in ('-a', '-and'):
+                eat()
+                t = 'And(%s,%s)' % (t, unary())
+            elif w in prim or w in ('!', '('):
+                t = 'And(%s,%s)' % (t, unary())
+            else:
+                return t
+
+    def disj():
+        t = conj()
+        while peek() in ('-o', '-or'):
+            eat()
+            t = 'Or(%s,%s)' % (t, conj())
+        return t
+
+    def lst():
+        t = disj()
+        while peek() == ',':
+            eat()
+            t = 'List(%s,%s)' % (t, disj())
+        return t
+    try:
+        t = lst()
+        if pos[0] != len(words):
+            return None
+        return t
+    except Bad:
+        return None
+
+
+def family_precedence(maxlen=None):
+    """C09 / C01 (front end, bounded): every word sequence up to a length bound over { ( ) ! , -a -o -true -print } plus sampled longer
+    ones with the synonyms -and / -or: the parser accepts exactly the sentences of the grammar and returns the reference tree"""
+    import itertools, random
+    if maxlen is None:
+        maxlen = 6 if TIER == 'thorough' else 5
+    alpha = ['(', ')', '!', ',', '-a', '-o', '-true', '-print']
+
+    def case(words):
+        want = reference_tree(words)
+
+        def bad(g, want=want):
+            if g[0] == 'PANIC':
+                return True
+            if want is None:
+                return g[0] == 'OK'
+            if g[0] != 'OK':
+                return True
+            got = re.sub(r'\s+', '', g[2]).replace(',)', ')')
+            return got != want
+        return dict(op='parse', input=' '.join(words), expect=('the tree %s' % want) if want else 'rejected as a whole', bad=bad)
+    for n in range(1, maxlen + 1):
+        for ws in itertools.product(alpha, repeat=n):
+            yield case(list(ws))
+    rnd = random.Random(5)
+    alpha2 = alpha + ['-and', '-or', '-false', '-quit', '-empty', '!', '(', ')']
+    for _ in range(4000):
+        yield case([rnd.choice(alpha2) for _ in range(rnd.choice((7, 8, 9, 10, 12)))])
+
+
+def family_sequence():
+    """C15: a compilation does not depend on what the process compiled before — A, then B, then A again, then C, then A again (all
+    ordered pairs A, B out of twelve inputs that differ in output mode, matchers, printers, time tests and refusal): the three
+    answers for A are identical (clock normalised)"""
+    inputs = ['-name a -print', '-name a -print0', '-print', '-fprint f', '-name a -o -name b', '-iname a -fprint0 f', '-printf "%p\\n"', '-printf "%p"',
+              '-true', '-name a -user u', '-type f,d -size +1k', '! ( -name a -o -print0 )']
+    norm = lambda g: [re.sub(r'\(- \d{9,12} \(', '(- NOW (', x) for x in g]
+    for a in inputs:
+        for b in inputs:
+            if a == b:
+                continue
+            c = inputs[(inputs.index(b) + 5) % len(inputs)]
+            yield dict(op='compile', input=a, also3=(('compile', b), ('compile', a), ('compile', c), ('compile', a)),
+                       expect='the same answer for the first, third and fifth request (the same input)',
+                       bad=lambda g, g2, g3, g4, g5: not (norm(g) == norm(g3) == norm(g5)))
+
+
+def family_structure():
+    """C09 (and the operand order C02 relies on): the policy body of a tree is the composition of the texts of its operands, in
+    the order written — (and L R) for AND and `,`, (or L R), (not X) — wrapped as (and E (print-relative-path)) exactly when it holds
+    no action; all trees of depth <= 3 over seven leaves and four operators, built directly (generated ids normalised)"""
+    leaves = [('Test(True)', '#t', False), ('Test(False)', '#f', False), ('Test(Name("x"))', '(call-with-name %lf3:match:N)', False), ('Test(Empty)', '(empty)', False),
+              ('Action(Print)', '(call-with-relative-path %lf3:print:N)', True), ('Action(Quit)', '(lipe-scan-break 0)', True),
+              ('Action(PrintNull)', '(call-with-relative-path %lf3:print:N)', True)]
+    ops = [('And', 'and'), ('Or', 'or'), ('List', 'and')]
+    trees = list(leaves)
+    trees += [('Not(%s)' % t, '(not %s)' % e, a) for t, e, a in leaves]
+    lvl1 = list(trees)
+    for o, so in ops:
+        trees += [('%s(%s, %s)' % (o, t1, t2), '(%s %s %s)' % (so, e1, e2), a1 or a2) for t1, e1, a1 in lvl1 for t2, e2, a2 in lvl1]
+    core = [leaves[i] for i in (0, 1, 2, 4, 5)]
+    pairs = [('%s(%s, %s)' % (o, t1, t2), '(%s %s %s)' % (so, e1, e2), a1 or a2) for o, so in ops for t1, e1, a1 in core for t2, e2, a2 in core]
+    for o, so in ops:
+        for (t1, e1, a1) in pairs:
+            for (t2, e2, a2) in core:
+                trees.append(('%s(%s, %s)' % (o, t1, t2), '(%s %s %s)' % (so, e1, e2), a1 or a2))
+                trees.append(('%s(%s, %s)' % (o, t2, t1), '(%s %s %s)' % (so, e2, e1), a1 or a2))
+                trees.append(('Not(%s(%s, %s))' % (o, t1, t2), '(not (%s %s %s))' % (so, e1, e2), a1 or a2))
+    for t, e, act in trees:
+        want = e if act else '(and %s (print-relative-path))' % e
+
+        def bad(g, want=want):
+            if g[0] != 'OK':
+                return g[0] == 'CERR'
+            b = policy_body(g[1])
+            return b is None or re.sub(r'%lf3:(match|print):\d+', r'%lf3:\1:N', b) != want
+        yield dict(op='ast', input=t, expect='policy body %s' % want, bad=bad)
+
+
 def family_refusal():
     atoms = [('-true', {}), ('-name x', {}), ('-print', {}), ('-regex r', {'bad': True}), ('-ls', {'bad': True}), ('nope', {'bad': True}),
              ('-printf "%p"', {}), ('-printf "%Z"', {'bad': True})]
@@ -910,7 +1057,11 @@ def family_renders():
     just rendered, and a repeat): every rendering carries its own path, as the decoded value of the string after (lipe-scan, the
     rest of the program is the same in all of them, and the reported table does not change"""
     seqs = [['/mnt/a"b', '/mnt/a\\"b', '/mnt/a"b'], ['/dev/x\\y', '/dev/x\\\\y', '/'], ['/', '/', '/a'], ['/a', '/b', '/a', '/b'],
-            ['/{mdt}', '/{options}', '/{policy}'], ['/a\\', '/a\\\\', '/a\\\\\\\\'], ['/"', '/\\"', '/\\\\\\"', '/"'], ['', '/', ''], ['/caf\u00e9', '/cafe', '/caf\u00e9']]
+            ['/{mdt}', '/{options}', '/{policy}'], ['/a\\', '/a\\\\', '/a\\\\\\\\'], ['/"', '/\\"', '/\\\\\\"', '/"'], ['', '/', ''], ['/caf\u00e9', '/cafe', '/caf\u00e9'],
+            # long paths (a cap or a buffer boundary): 255/256, 4095/4096/4097 bytes, two that differ only in their last character
+            ['/' + 'a' * 254, '/' + 'a' * 255, '/' + 'a' * 256], ['/' + 'a' * 4094, '/' + 'a' * 4095, '/' + 'a' * 4096],
+            ['/' + 'd' * 4100 + '0', '/' + 'd' * 4100 + '1', '/' + 'd' * 4100 + '0'], ['/' + '\u00e9' * 2047 + 'x', '/' + '\u00e9' * 2048, '/' + '\u00e9' * 2049],
+            ['/' + 'q' * 70000, '/' + 'q' * 70001]]
     for inp in ('-name x', '-print0 -o -fprint out', '-name "a\\"b" -print'):
         for paths in seqs:
             def bad(g, paths=paths):
@@ -1021,7 +1172,7 @@ def family_noninterference():
             ['a"b\\', '\\"', '~a~%', '")) (lipe-scan-break 0) (("', '\\\\\\', '#\\"', '{mdt}', '{policy}"']
     nl = 'Special(Newline)'
     slots = ['Test(Name(@))', 'Test(InsensitiveName(@))', 'Test(Path(@))', 'Test(InsensitivePath(@))', 'Test(Pool(@))', 'Test(Xattr(@))',
-             'Test(XattrMatch(@, "v"))', 'Test(XattrMatch("n", @))', 'And(Test(Name(@)), Action(PrintNull))', 'And(Test(Pool(@)), Action(FilePrint("f")))',
+             'Test(XattrMatch(@, "v"))', 'Test(XattrMatch("n", @))', 'Test(XattrMatch(@, "v*"))', 'Test(XattrMatch("n?[", @))', 'And(Test(Name(@)), Action(PrintNull))', 'And(Test(Pool(@)), Action(FilePrint("f")))',
              'Action(PrintFormatted([Literal(@), %s]))' % nl, 'Action(PrintFormatted([Field(Name), Literal(@)]))',
              'Action(PrintFormatted([Literal(@), Field(Name), Literal(@), %s]))' % nl,
              'Action(FilePrintFormatted("f", [Literal(@)]))', 'Action(PrintFormatted([Field(XAttr(@)), %s]))' % nl, 'And(Test(Name(@)), Test(Xattr(@)))',
@@ -1047,7 +1198,7 @@ def family_noninterference():
             return (g[2] if len(g) > 2 else '').count('=') != (g2[2] if len(g2) > 2 else '').count('=')
         return bad
     for slot in slots:
-        for w in words + ([] if 'XattrMatch' in slot else ["'", "it's", "'\"'"]):
+        for w in words + ([] if ('XattrMatch' in slot and '*' not in slot and '?' not in slot) else ["'", "it's", "'\"'"]):
             yield dict(op='ast', input=slot.replace('@', rust_str(w)), also=('ast', slot.replace('@', rust_str(ref))),
                        expect='same structure as with the string QZQ; every literal decodes to its QZQ counterpart with the user string in place', bad=oracle(w))
     # the device path
@@ -1142,10 +1293,10 @@ def family_parse_refusal():
     unsupported = ['-user', '-group', '-fstype', '-regex', '-iregex', '-samefile', '-lname', '-ilname', '-anewer', '-cnewer', '-mnewer', '-fls']
     for kw in unsupported:
         for a in args:
-            for shape in ('%s %s', '-true -o %s %s', '! %s %s', '-name x -a ( %s %s )', '%s %s -print'):
+            for shape in ('%s %s', '-true -o %s %s', '! %s %s', '-name x -a ( %s %s )', '%s %s -print', '-depth %s %s', '-threads 2 -depth -name x %s %s'):
                 yield dict(op='compile', input=shape % (kw, a), expect='refused (or rejected), never compiled', bad=lambda g: g[0] == 'OK')
     for kw in ('-nouser', '-nogroup', '-ls', '-prune', '-xdev'):
-        for shape in ('%s', '-true -o %s', '! %s', '-name x %s', '%s -print'):
+        for shape in ('%s', '-true -o %s', '! %s', '-name x %s', '%s -print', '-depth %s', '-depth -name x %s -o -print', '-threads 4 -true -o %s'):
             yield dict(op='compile', input=shape % kw, expect='refused (or rejected), never compiled', bad=lambda g: g[0] == 'OK')
     for kw in ('-maxdepth', '-mindepth'):
         for a in ('0', '1', '3', '4294967295'):
@@ -1182,8 +1333,10 @@ def family_ast_refusal():
               ('And(Test(Name("a")), Action(Print))', False), ('Test(Type([File]))', False), ('List(Action(Quit), Action(PrintFid))', False),
               ('List(Action(Quit), Action(Prune))', True), ('Action(Prune)', True)]
     for t, refused in trees:
-        yield dict(op='ast', input=t, expect='refused' if refused else 'compiles',
-                   bad=(lambda g, refused=refused: (g[0] == 'OK' and refused) or (g[0] == 'CERR' and not refused)))
+        # refusal does not depend on the run options
+        for opts in ('', '\tRunOptions { depth: true, threads: Some(3) }', '\tRunOptions { depth: true, threads: None }'):
+            yield dict(op='ast', input=t + opts, expect='refused' if refused else 'compiles',
+                       bad=(lambda g, refused=refused: (g[0] == 'OK' and refused) or (g[0] == 'CERR' and not refused)))
 
 
 def family_ast_structure():
@@ -1226,7 +1379,7 @@ def family_hostile():
 
 GENERATED = {
     'BOUNDED.clock_window': family_clock, 'C07.time_comp.text': family_clock,
-    'BOUNDED.parse_refusal': family_parse_refusal, 'BOUNDED.parse_perm': family_perm, 'BOUNDED.parse_options': family_options, 'BOUNDED.parse_total': (family_parse_total, family_grammar), 'BOUNDED.parse_numbers': family_parse_numbers,
+    'BOUNDED.parse_grammar': family_precedence, 'BOUNDED.parse_refusal': family_parse_refusal, 'BOUNDED.parse_perm': family_perm, 'BOUNDED.parse_options': family_options, 'BOUNDED.parse_total': (family_parse_total, family_grammar), 'BOUNDED.parse_numbers': family_parse_numbers,
     'ASSUME.printer_map': family_table, 'C10.table.keys': family_table,
     'C09.top.wrap_decision': family_wrap, 'C19.action.iff': family_wrap, 'C09.emit.structure': family_wrap,
     'C12.refusal.iff': family_refusal, 'C12.top.iff': family_refusal,
@@ -1245,6 +1398,7 @@ FAMILY_RULES = [
     (r'^C19\.(action|frames)', (family_queries, family_frames)),
     (r'^C19\.(mult|secs|byte_size)|^C07\.byte_size', (family_units,)),
     (r'^C10\.top\.manager_choice|^C10\.table\.iff_framed|^C10\.top\.table_iff', (family_frames,)),
+    (r'^C15\.|^C19\.frames|\.definitions$|^C10\.top', (family_sequence, family_determinism)),
     (r'^C20\.', (family_renders, family_hostile, family_noninterference)),
     (r'^C04\.|matcher\.text|file_port\.text|matcher_ref|printf_ref', (family_noninterference, family_grammar_structure)),
     (r'^C1[01]\.', (family_grammar_structure,)),
@@ -1252,7 +1406,7 @@ FAMILY_RULES = [
     (r'\.(printer|file_port|default_port)\.|get_printer|get_file_printer|printer_name|printer_ref|printf_ref|^C10\.(table|top|routing|terminator_text)|\.definitions$',
      (family_table, family_long, family_determinism, family_ast_structure)),
     (r'^C12\.', (family_refusal, family_ast_refusal, family_parse_refusal)),
-    (r'^C09\.|^C19\.action', (family_wrap, family_wrap_body)),
+    (r'^C09\.|^C19\.action', (family_wrap, family_wrap_body, family_structure, family_precedence)),
     (r'^SAFETY\.|^C11\.budget', (family_panics, family_long, family_ast, family_perm, family_grammar)),
     (r'^C08\.|^KANI\.c08', (family_perm,)),
     (r'^C04\.(placeholder|literal|snippet|format)|^C03\.type_list|^C07\.(size|time)|^C08\.', (family_ast_refusal, family_ast_structure)),
@@ -1260,7 +1414,7 @@ FAMILY_RULES = [
 
 
 # one clause id per rule, so that the self-test can reach every family
-RULE_SAMPLE_KEYS = ['C19.frames.iff', 'C19.mult.table', 'C10.top.manager_choice', 'C20.render.text', 'C11.local.matcher.text', 'C10.dist.printer.text',
+RULE_SAMPLE_KEYS = ['C15.any', 'C19.frames.iff', 'C19.mult.table', 'C10.top.manager_choice', 'C20.render.text', 'C11.local.matcher.text', 'C10.dist.printer.text',
                     'C12.refusal.iff', 'SAFETY.undecided', 'C04.format.text']
 
 
@@ -1338,9 +1492,13 @@ BOUNDED_STANDINS = {
              'bounded stand-in: for all 4096 octal values in 3- and 4-digit spelling, all 315 single clauses and two-clause lists (81 in the quick tier, all 99,225 in the '
              'thorough tier), the prefix selects the check and nothing else (`-A` = all bits of V, `/A` = some bit of V, V the value of plain `A`); octal arguments '
              'denote their value, longer or larger digit runs are rejected; lists without a `-` clause equal chmod\'s result')],
+    'C09': [('BOUNDED.parse_grammar', 'BOUNDED.parse_grammar', 'find_parser::precedence (which tree a word sequence parses to: winnow combinators, outside the verifier; "as if ( expression ) -a '
+             'print had been written" depends on it) — bounded stand-in: every word sequence up to length 5 (thorough: 6) over { ( ) ! , -a -o -true -print } and 4,000 longer '
+             'ones with the synonyms: accepted exactly when it is a sentence, and then the tree is the reference tree (! over AND over OR over `,`, left-associative, '
+             'parentheses leave no node)')],
     'C12': [('BOUNDED.parse_refusal', 'BOUNDED.parse_refusal', 'the keyword table of find_parser (which node a keyword and its argument parse to: winnow combinators, outside the verifier) — '
              'bounded stand-in: each of the 19 primaries and options the target cannot express, with 18 argument spellings (names starting with digits, numbers, quoted '
-             'words, patterns) in 5 expression shapes, is refused or rejected and never compiled; their supported neighbours compile')],
+             'words, patterns) in 7 expression shapes (two of them under -depth / -threads), is refused or rejected and never compiled; their supported neighbours compile')],
     'C10': [('BOUNDED.printer_map', 'ASSUME.printer_map',
              'DistributedSchemeManager::printer_map (iterator over the hash map: external_body) — bounded stand-in: all expressions of up to 3 '
              'output actions over 6 destination/terminator kinds; the table must be the inverse of the tag map')],
